@@ -37,7 +37,7 @@ TRUSTED_BASE = [
     "tied to pdfminer by differential correspondence on valid and corrupted inputs",
     "tools/translate (Python ast -> Lean) for paeth_predictor and the LITERALS_* filter-name tuples",
     "zlib (Flate) is an abstract inverse pair in Lean; the driver receives zlib's results from the harness",
-    "LZW bit reader is modelled on the MSB-first bit sequence of the input (not on buff/bpos)",
+    "base64.a85decode (CPython) is modelled by hand from its source",
     "shared PDF writer tools/harness/pdfwriter.py for the generated files",
 ]
 ASSUMPTIONS = [
@@ -62,6 +62,7 @@ STATEMENT_STATUS: Dict[str, str] = {
     "chain_rt": "proved: chains of any length, by induction; stages for AHx, A85, LZW, RL, Fl (zlib abstract) under full and "
                 "abbreviated names (membership in the regenerated LITERALS_* tuples) with any predictor setting",
     "stream_chain_rt": "proved: PDFStream.get_filters/decode on the Filter and DecodeParms arrays of a chain",
+    "lzw_bit_view": "proved: LZWDecoder.readbits/run on (buff, bpos, unread bytes) equals the loop on the MSB-first bit sequence",
     "filter_names": "proved: full and abbreviated name of each supported filter is in its regenerated LITERALS_* tuple",
     "rldecode_fuel/lzwdecode_fuel/png_fuel/tiff_fuel": "proved: the fuel of every model loop suffices on every input",
     "png_pinned_*_cex": "proved counter-examples: the pinned (pre-fix) predictor parameters fail on the corpus inputs",
